@@ -447,6 +447,14 @@ def Full.step (f : Full) (line : String) : Full :=
   | "eread" => let (w, ew) := onERead (bump f.w) f.ew toks; { f with w := w, ew := ew }
   | "efinal" => let (w, ew) := onEFinal (bump f.w) f.ew toks; { f with w := w, ew := ew }
   | "eclosed" => { f with w := onEClosed (bump f.w) toks }
+  | "eglobal" =>
+    let w := bump f.w
+    let w := if arg toks "first" != "true" then w.fail "C16" "loss" "GlobalChannel: the first caller did not receive the emitted event" else w
+    { f with w := if arg toks "second" != "2" then w.fail "C16" "loss" s!"GlobalChannel: a caller with a live context, arriving after the first caller's context ended, got `{arg toks "second"}` instead of the event emitted for it (the channel bound to the first caller's context is handed out for ever)" else w }
+  | "enilbus" =>
+    let w := bump f.w
+    let w := if arg toks "put" != "ok" || arg toks "bus" != "true" then w.fail "C16" "write" s!"store with the default bus: put={arg toks "put"}, write event on the bus: {arg toks "bus"}" else w
+    { f with w := if arg toks "legacy" != "true" then w.fail "C16" "loss" "store built with the default (nil) EventBus option: its legacy channel API never delivered the write event (it listens to another bus)" else w }
   | "ewedge" =>
     let w := bump f.w
     let wedged := parseInt (arg toks "wedged")
